@@ -66,6 +66,8 @@ class Ctx:
         self.log_decisions = False
         self.assumptions = []
         self.deg_limit = 3
+        self.decided = {}
+        self.maxdepth = MAXDEPTH
         self.subst = {}          # atom id -> polynomial (linear equalities decided on this path)
         self.sliver_assume = True
         self.sliver_count = 0
@@ -136,9 +138,13 @@ class Ctx:
             return True
         if z3.is_false(cond):
             return False
+        key = cond.get_id()
+        hit = self.decided.get(key)
+        if hit is not None:
+            return hit[1]          # same condition already decided on this path (path conditions only grow)
         i = len(self.trace)
-        if i > MAXDEPTH:
-            raise BoundExceeded('decision depth bound %d' % MAXDEPTH)
+        if i > self.maxdepth:
+            raise BoundExceeded('decision depth bound %d' % self.maxdepth)
         if self.log_decisions:
             self.decision_log.append((i, self.clock, cond))
         if i < len(self.prefix):
@@ -199,6 +205,7 @@ class Ctx:
                 d = mv
         self.trace.append(1 if d else 0)
         self._add(cond if d else z3.Not(cond))
+        self.decided[key] = (cond, d)
         return d
 
     def learn_equality(self, p):
